@@ -292,7 +292,8 @@ def run(ctx):
                 if s_ not in u and len(u) < m:
                     u.append(s_)
         two = r % 2 == 1
-        big = ctx.rng.choice([1030, 1100, 1500, 2100])
+        from .. import lifted as lf
+        big = lf.boundary_size(r + ctx.seed)
         mx = [1 + c for c in np.random.RandomState(r).multinomial(big - m, [1.0 / m] * m).tolist()]
         my = [int(c) for c in np.random.RandomState(100 + r).multinomial(ctx.rng.choice([40, 700]), [1.0 / m] * m).tolist()] if two else [0] * m
         x = [s_ for s_, c in zip(u, mx) for _ in range(c)]
